@@ -29,6 +29,7 @@ CONSTANTS
   AsImplemented_ZeroAverageNaN = FALSE
   AsImplemented_HugeAgePanics = FALSE
   Variant_StrictThreshold = FALSE
+SYMMETRY Sym
 INVARIANTS TypeOK BurstExact JoinsOrdered BurstDistinctPeers PrefixExact PrefixNamesSharers EvidenceNamesPresentOnly
            IdenticalHistoriesSimilar SimilarityBounded AsymSound AnalysisIdempotent GroupsDisjoint AnalyzeCovers GroupsOnlyByAnalysis
            SuspectedIffMember RiskMonotoneUntilClear OverallIsSuspectedFraction GroupCountBounded ClearEmpties CleanupOnlyOld
